@@ -44,7 +44,8 @@ func interceptDebugInfo(imp interface{}, pFunc iface.PFunc, mocker Mocker) (inte
 		return imp, pFunc
 	}
 
-	if imp != nil {
+	// a callback that is not a function is refused further down, with the same panic as when logging is off
+	if imp != nil && reflect.TypeOf(imp).Kind() == reflect.Func {
 		originImp := imp
 		impType := reflect.TypeOf(imp)
 		var logging int32
